@@ -414,7 +414,152 @@ func TestC29(t *testing.T) {
 	t.Run("part", func(t *testing.T) {
 		ev.Check(t, 4000, 50000, func(rt *rapid.T) { c29Part(rt, rec) })
 	})
+	t.Run("sequence", func(t *testing.T) {
+		ev.Check(t, 2500, 30000, func(rt *rapid.T) { c29Sequence(rt, rec) })
+	})
 	t.Run("garbage", func(t *testing.T) {
 		ev.Check(t, 2000, 20000, func(rt *rapid.T) { c29Garbage(rt, rec) })
 	})
+}
+
+
+// c29Sequence: one proof context object lives as long as its validator set and verifies parts and
+// proofs for many decisions (every height and round). A sequence of 2..12 verifications is run on ONE
+// context over two decisions; signatures are validator i's own signature over decision 0 or over
+// decision 1 (or another validator's), presented for decision 0 or 1, as a part or inside a proof.
+// The reference judges every call on its own: a part is acceptable iff it is validator i's signature
+// over the PRESENTED decision; a proof iff all present entries are and 3*present > 2n. What an
+// earlier call verified must not matter.
+func c29Sequence(rt *rapid.T, rec *ev.Rec) {
+	c := c29NewCtx(rt)
+	n := len(c.keys)
+	dec := [][]byte{c.dHash, c.oHash}
+	var live []int
+	for i, k := range c.keys {
+		if k != nil {
+			live = append(live, i)
+		}
+	}
+	if len(live) == 0 {
+		rec.Case("sequence "+c.desc+" (no validator key)", false, "sequence", "sequence:noKeys")
+		return
+	}
+	type sigSel struct {
+		signer int // validator index whose key signs
+		over   int // decision signed
+	}
+	draw := func(slot int, label string) sigSel {
+		x := sigSel{signer: slot, over: rapid.IntRange(0, 1).Draw(rt, label+".over")}
+		if rapid.IntRange(0, 9).Draw(rt, label+".otherSigner") == 0 {
+			x.signer = live[rapid.IntRange(0, len(live)-1).Draw(rt, label+".signer")]
+		}
+		return x
+	}
+	sign := func(x sigSel) []byte { return c29Sign(c.keys[x.signer], dec[x.over]) }
+	var trail []string
+	nSteps := rapid.IntRange(2, 12).Draw(rt, "steps")
+	crossed := false
+	seenOver := map[int]bool{}
+	for st := 0; st < nSteps; st++ {
+		pd := rapid.IntRange(0, 1).Draw(rt, "presentedFor")
+		if rapid.IntRange(0, 2).Draw(rt, "asPart") != 0 {
+			slot := live[rapid.IntRange(0, len(live)-1).Draw(rt, "slot")]
+			x := draw(slot, "part")
+			want := x.signer == slot && x.over == pd
+			bs, err := codec.BC.MarshalToBytes(&c29part{Index: slot, Signature: sign(x)})
+			if err != nil {
+				ev.Inconclusive("C29: cannot encode proof part: %v", err)
+			}
+			trail = append(trail, fmt.Sprintf("part(slot %d: key %d over D%d, for D%d)", slot, x.signer, x.over, pd))
+			if seenOver[1-pd] && x.over == 1-pd {
+				crossed = true
+			}
+			seenOver[x.over] = true
+			got, detail := func() (res, detail string) {
+				defer func() {
+					if r := recover(); r != nil {
+						res, detail = "panic", fmt.Sprint(r)
+					}
+				}()
+				pp, err := c.pc.NewProofPartFromBytes(bs)
+				if err != nil {
+					return "reject", err.Error()
+				}
+				if _, err := c.pc.VerifyPart(dec[pd], pp); err != nil {
+					return "reject", err.Error()
+				}
+				return "accept", ""
+			}()
+			if got == "panic" {
+				rt.Fatalf("C29 violated: panic instead of an error: %s | %s steps: %v", detail, c.desc, trail)
+			}
+			if got == "accept" && !want {
+				rt.Fatalf("C29 violated: step %d: proof part accepted for decision D%d although it is key %d's signature over D%d presented for validator %d | %s steps: %v", st, pd, x.signer, x.over, slot, c.desc, trail)
+			}
+			if got != "accept" && want {
+				rt.Fatalf("C29 violated: step %d: validator %d's own signature over the presented decision rejected (%s) | %s steps: %v", st, slot, detail, c.desc, trail)
+			}
+			continue
+		}
+		w := c29wire{Signatures: make([][]byte, n)}
+		present, allOK := 0, true
+		var cd []string
+		for _, slot := range live {
+			if rapid.IntRange(0, 4).Draw(rt, "absent") == 0 {
+				continue
+			}
+			x := draw(slot, "entry")
+			if rapid.IntRange(0, 2).Draw(rt, "mostlyGood") != 0 {
+				x = sigSel{slot, pd}
+				if rapid.IntRange(0, 3).Draw(rt, "allOther") == 0 {
+					x.over = 1 - pd
+				}
+			}
+			w.Signatures[slot] = sign(x)
+			present++
+			if x.signer != slot || x.over != pd {
+				allOK = false
+			}
+			if seenOver[1-pd] && x.over == 1-pd {
+				crossed = true
+			}
+			cd = append(cd, fmt.Sprintf("%d:k%d/D%d", slot, x.signer, x.over))
+		}
+		for _, e := range cd {
+			_ = e
+		}
+		for _, slot := range live {
+			if w.Signatures[slot] != nil {
+				seenOver[pd] = seenOver[pd] || true
+			}
+		}
+		want := allOK && 3*present > 2*n
+		bs, err := codec.BC.MarshalToBytes(&w)
+		if err != nil {
+			ev.Inconclusive("C29: cannot encode proof: %v", err)
+		}
+		trail = append(trail, fmt.Sprintf("proof([%s] for D%d)", strings.Join(cd, " "), pd))
+		save := c.dHash
+		c.dHash = dec[pd]
+		got, detail := c29Verify(c, bs)
+		c.dHash = save
+		for _, slot := range live {
+			if w.Signatures[slot] != nil {
+				seenOver[0], seenOver[1] = true, true // conservatively: both kinds may have been seen
+			}
+		}
+		switch {
+		case got == "panic":
+			rt.Fatalf("C29 violated: panic instead of an error: %s | %s steps: %v", detail, c.desc, trail)
+		case got == "accept" && !want:
+			rt.Fatalf("C29 violated: step %d: proof accepted for decision D%d although it must be rejected (all entries own signatures over it: %v, present %d of %d) | %s steps: %v", st, pd, allOK, present, n, c.desc, trail)
+		case got != "accept" && want:
+			rt.Fatalf("C29 violated: step %d: proof with %d valid own-index signatures of %d validators rejected (%s) | %s steps: %v", st, present, n, detail, c.desc, trail)
+		}
+	}
+	labels := []string{"sequence"}
+	if crossed {
+		labels = append(labels, "sequence:signatureOfOtherDecisionAfterItWasVerified")
+	}
+	rec.Case(fmt.Sprintf("sequence %s steps=%v", c.desc, trail), crossed, labels...)
 }
